@@ -71,10 +71,9 @@ def run_job(job_json):
             body(ctx, **cfg)
             # sample a few completed paths for concrete cross-validation
             if len(samples) < validate and ctx.decisions is not None:
-                r = ctx._check()
-                if r == core.z3.sat:
-                    m = ctx.solver.model()
-                    samples.append({n: core.model_value(m, z) for n, z in ctx.symbols.items()})
+                m = ctx.full_model()
+                if m is not None:
+                    samples.append(m)
 
         ex.run(wrapped)
         out["stats"] = ex.stats.to_json()
@@ -123,7 +122,8 @@ def replay_model(job_json, model):
         core.set_cur(None)
     if ctx.failed:
         status = "failed"
-    return {"status": status, "failed": ctx.failed, "missing": ctx.missing, "error": err}
+    return {"status": status, "failed": ctx.failed, "missing": ctx.missing, "error": err,
+            "library_results_replaced_by_model_constants": sorted(set(ctx.stubbed))}
 
 
 # --------------------------------------------------------------------------
